@@ -429,6 +429,146 @@ def oracle_binning_rows(ck, rng):
                              oracle="binning_keeps_tomogram")
 
 
+def oracle_surface(ck, rng):
+    """the rarely used entry points of the same contract, on tomograms whose voxels name (tomogram, position): load() with an integer
+    or a slice, the per-tomogram loaders of a batch (`loaders[id]`, iteration, len), from_loaders, reshape, apply with several
+    functions and a schema, and the group-level count/filter/head/tail/sample, average dictionary and melted apply table"""
+    import polars as pl
+    from acryo import SubtomogramLoader, BatchLoader
+    fails = []
+
+    def expect(cond, site, what, inp=None):
+        if not cond:
+            fails.append((site, what, inp))
+
+    def raises(fn, *exc):
+        try:
+            fn()
+        except exc:
+            return True
+        except Exception:
+            return False
+        return False
+
+    nit = 4 if ck.tier == "quick" else 30
+    for it in range(nit):
+        kind = "batch" if it % 4 != 3 else "single"
+        ld, rows, lookup = build(rng, kind)
+        value_of = {tg: val for val, tg in lookup.items()}
+        dec = lambda arr: [lookup.get(int(round(float(x))), -7) for x in np.asarray(arr).ravel()]
+        tags = [r[0] for r in table(ld, kind)]
+        n = len(tags)
+        info = {"kind": kind, "table": table(ld, kind), "iteration": it}
+        try:
+            # load(): integer, negative integer, slices
+            for i in (0, n - 1, -1):
+                expect(dec(ld.load(i)) == [tags[i]], "load-int", f"load({i}) returned molecule {dec(ld.load(i))} instead of {tags[i]}", info)
+            for sl in (slice(None), slice(1, None), slice(None, None, 2), slice(1, n, 2), slice(0, 0)):
+                want = tags[sl]
+                if not want:
+                    continue
+                got = dec(ld.load(sl))
+                expect(got == want, "load-slice", f"load({sl}) returned molecules {got} instead of {want}", info)
+            # reshape: only the output shape changes
+            r3 = ld.reshape(shape=(3, 3, 3))
+            expect(tuple(r3.output_shape) == (3, 3, 3) and tuple(ld.output_shape) == (1, 1, 1), "reshape", "reshape(shape=) did not set the new / keep the old output shape", info)
+            expect(table(r3, kind) == table(ld, kind) and np.array_equal(r3.molecules.pos, ld.molecules.pos), "reshape", "reshape changed the molecules", info)
+            got = dec(np.asarray(r3.asnumpy())[:, 1, 1, 1])
+            expect(got == tags, "reshape", f"sub-volumes of the reshaped loader are centred on molecules {got} instead of {tags}", info)
+            t5 = np.zeros((5, 3, 3), np.float32)
+            expect(tuple(ld.reshape(template=t5).output_shape) == (5, 3, 3), "reshape", "reshape(template=) does not take the template's shape", info)
+            expect(tuple(ld.reshape(mask=t5).output_shape) == (5, 3, 3), "reshape", "reshape(mask=) does not take the mask's shape", info)
+            expect(tuple(ld.reshape(template=t5, mask=t5, shape=(5, 3, 3)).output_shape) == (5, 3, 3), "reshape", "consistent template/mask/shape rejected", info)
+            expect(raises(lambda: ld.reshape(template=t5, shape=(3, 3, 3)), ValueError), "reshape", "inconsistent template and shape accepted", info)
+            expect(raises(lambda: ld.reshape(mask=t5, template=np.zeros((3, 3, 3), np.float32)), ValueError), "reshape", "inconsistent template and mask accepted", info)
+            expect(raises(lambda: ld.reshape(), ValueError), "reshape", "reshape() without any shape information accepted", info)
+            # apply: several functions, positional or as a list, default / list / dict schema
+            want_cols = [tags, tags]
+            for label, call in (("more_funcs", lambda: ld.apply(np.max, np.min)),
+                                ("list", lambda: ld.apply([np.max, np.min])),
+                                ("list-schema", lambda: ld.apply([np.max, np.min], schema=["hi", "lo"])),
+                                ("dict-schema", lambda: ld.apply(np.max, np.min, schema={"hi": pl.Float64, "lo": pl.Float32}))):
+                tab = call()
+                names = ["hi", "lo"] if "schema" in label else [tab.columns[0], tab.columns[1]]
+                expect(tab.shape == (n, 2) and list(tab.columns) == names, "apply-schema", f"apply ({label}) returned a {tab.shape} table with columns {tab.columns}", info)
+                cols = [dec(tab[c].to_numpy()) for c in tab.columns]
+                expect(cols == want_cols, "apply-schema", f"apply ({label}): rows belong to molecules {cols} instead of {tags}", info)
+            expect(raises(lambda: ld.apply(np.max, np.min, schema=["a", "a"]), ValueError), "apply-schema", "duplicate schema names accepted", info)
+            expect(raises(lambda: ld.apply(np.max, np.min, schema=["a"]), ValueError), "apply-schema", "schema shorter than the function list accepted", info)
+            expect(raises(lambda: ld.apply(np.max, schema={"a": pl.Float32, "b": pl.Float32}), ValueError), "apply-schema", "dict schema longer than the function list accepted", info)
+            # groups: derived groups hold exactly the selected molecules of each group
+            g = ld.groupby("v")
+            members = {}
+            for tg, _, v in table(ld, kind):
+                members.setdefault(v, []).append(tg)
+            expect({k: c for k, c in g.count().items()} == {k: len(v) for k, v in members.items()}, "group-count", f"group count {g.count()} != {members}", info)
+            derived = {
+                "filter": (g.filter(pl.col("tag") % 2 == 0), lambda m: [t for t in m if t % 2 == 0]),
+                "head": (g.head(2), lambda m: m[:2]),
+                "tail": (g.tail(1), lambda m: m[-1:]),
+            }
+            for name, (gg, sel) in derived.items():
+                for key, sub in gg:
+                    want = sel(members[key])
+                    got_t = sub.molecules.features["tag"].to_list() if sub.count() else []
+                    got_v = dec(sub.asnumpy()) if sub.count() else []
+                    expect(got_t == want and got_v == want, "group-" + name, f"group {key}: {name} holds molecules {got_t} (loads {got_v}) instead of {want}", info)
+            for key, sub in g.sample(1, seed=it):
+                got_t = sub.molecules.features["tag"].to_list()
+                expect(len(got_t) == 1 and got_t[0] in members[key] and dec(sub.asnumpy()) == got_t, "group-sample", f"group {key}: sample gave {got_t}", info)
+            avg = g.average()
+            keys = list(members.keys())
+            expect(list(avg.keys()) == keys, "group-average", f"average keys {list(avg.keys())} != group keys {keys}", info)
+            for key in keys:
+                want = float(np.mean([value_of[t] for t in members[key]]))
+                expect(abs(float(np.asarray(avg[key]).ravel()[0]) - want) < 1e-2, "group-average", f"group {key}: average is not the mean of its own molecules", info)
+            st = avg.value_stack()
+            expect(st.shape[0] == len(keys) and all(np.array_equal(st[i], avg[k]) for i, k in enumerate(keys)) and
+                   all(np.array_equal(a_, avg[k]) for a_, k in zip(avg.value_list(), keys)), "group-average", "value_stack / value_list are not in key order", info)
+            ga = g.apply(np.max)
+            melt = ga.value_melt()
+            got = list(zip(melt["group"].to_list(), dec(melt[melt.columns[0]].to_numpy())))
+            want = [(str(k), t) for k in keys for t in members[k]]
+            expect(got == want, "group-melt", f"melted apply table {got} != {want}", info)
+            expect([dec(df[df.columns[0]].to_numpy()) for df in ga.value_list()] == [members[k] for k in keys], "group-melt", "value_list of the apply tables is not in key order", info)
+            if kind == "batch":
+                ids = [r[1] for r in table(ld, kind)]
+                first = list(dict.fromkeys(ids))
+                acc = ld.loaders
+                expect(len(acc) == len(ld.images), "loaders-accessor", f"len(loaders) = {len(acc)} for {len(ld.images)} tomograms", info)
+                for iid in first:
+                    sub = acc[iid]
+                    want = [t for t, i_ in zip(tags, ids) if i_ == iid]
+                    expect(isinstance(sub, SubtomogramLoader) and sub.molecules.features["tag"].to_list() == want and dec(sub.asnumpy()) == want,
+                           "loaders-accessor", f"loaders[{iid}] holds {sub.molecules.features['tag'].to_list()}, loads {dec(sub.asnumpy())}; its molecules are {want}", info)
+                    expect(sub.order == ld.order and sub.scale == ld.scale and tuple(sub.output_shape) == tuple(ld.output_shape) and sub.corner_safe == ld.corner_safe,
+                           "loaders-accessor", "loaders[id] does not inherit order/scale/output_shape/corner_safe", info)
+                missing = [i_ for i_ in range(12) if i_ not in ids]
+                expect(raises(lambda: acc[missing[0]], KeyError), "loaders-accessor", "loaders[id] of an unknown id did not raise KeyError", info)
+                its = list(acc)
+                expect([x.molecules.features["tag"].to_list() for x in its] == [[t for t, i_ in zip(tags, ids) if i_ == iid] for iid in first],
+                       "loaders-accessor", "iterating loaders does not give each tomogram's molecules in first-appearance order", info)
+                fl = BatchLoader.from_loaders(its, order=0, scale=1.0, output_shape=(1, 1, 1))
+                ft = fl.molecules.features["tag"].to_list()
+                expect(sorted(ft) == sorted(tags) and dec(fl.asnumpy()) == ft and fl.order == 0 and tuple(fl.output_shape) == (1, 1, 1),
+                       "from-loaders", f"from_loaders: molecules {ft} load as {dec(fl.asnumpy())}", info)
+                fl2 = BatchLoader.from_loaders([fl, its[0]], order=0, scale=1.0, output_shape=(1, 1, 1))
+                ft2 = fl2.molecules.features["tag"].to_list()
+                expect(len(ft2) == n + its[0].count() and dec(fl2.asnumpy()) == ft2, "from-loaders", f"from_loaders([batch, single]): molecules {ft2} load as {dec(fl2.asnumpy())}", info)
+            # nothing above modified the loader
+            expect([r[0] for r in table(ld, kind)] == tags and dec(ld.asnumpy()) == tags, "purity", "the original loader changed", info)
+        except Exception as e:  # noqa
+            import traceback
+            fails.append(("raised", f"{type(e).__name__}: {e} at {traceback.format_exc().strip().splitlines()[-3].strip()}", info))
+    ck.oracle_count("loader_surface", nit, nit)
+    seen = set()
+    for site, what, inp in fails:
+        if site in seen:
+            continue
+        seen.add(site)
+        ck.violation(what=what, inp=inp, key={"site": "surface-" + site}, oracle="loader_surface")
+
+
 def run(ck: common.Check):
     ck.design_ref = "DESIGN.md §6 C03"
     ck.trusted_base = TB
@@ -444,6 +584,7 @@ def run(ck: common.Check):
     oracle_task_arguments(ck, rng)
     corr_registry(ck, np.random.default_rng(ck.seed + 30303))
     oracle_binning_rows(ck, rng)
+    oracle_surface(ck, np.random.default_rng(ck.seed + 3031))
 
 
 def replay(data):
